@@ -285,6 +285,11 @@ def conv_check(name, p, sides_arg, value):
     return []
 
 
+def _plain_attrs(name, p):
+    """the attribute values other than the data, with their types (3 and 3.0 are different assignments)"""
+    return [(a, type(getattr(p, a)).__name__, getattr(p, a)) for a in ATTRS if a != 'data' and has_attr(name, a)]
+
+
 def run_history(name, did, ops, check_conv=True):
     """replays ops on a new object; returns (object, trace, bad) where bad = [(clause, what, number of operations after which it fails)] and trace has one entry per op
     (outcome, returned length, observation) and bad the clauses failing along the way / at the end"""
@@ -292,9 +297,18 @@ def run_history(name, did, ops, check_conv=True):
     trace = [('init', -2, observe(p))]
     bad = []
     for op in ops:
+        before = None
+        if op[0] == 'set' and op[1] not in ('data', 'sides'):
+            before = (_plain_attrs(name, p), observe(p))
         out, val = apply_op(p, op)
         trace.append((out, vlen(val) if op[0] in ('read', 'conv', 'freq') and out == 'ok' else -2, observe(p)))
         i = len(trace) - 1
+        if before is not None and out == 'ok' and _plain_attrs(name, p) == before[0] and trace[-1][2] != before[1]:
+            # the assignment denotes the configuration the object already had (every getter returns what it returned before, e.g.
+            # NFFT = 'nextpow2' or None on an object whose NFFT already is that length): it must not alter anything observable
+            ch = sorted(k for k in before[1] if before[1][k] != trace[-1][2][k])
+            bad.append(('reassign_idempotent', 'assigning %s = %r left every attribute at its value but changed %s' % (
+                op[1], op[2], ', '.join('%s: %r -> %r' % (k, before[1][k], trace[-1][2][k]) for k in ch)), i))
         if out == 'ok' and op[0] in ('set', 'setnp') and op[1] == 'data':
             # the final attribute values are the ones that were ASSIGNED: an object that silently keeps its old samples would otherwise
             # be compared with a fresh object built from those old samples
